@@ -3,11 +3,17 @@
 Everything is plain JSON-able data:
   chain = {"segs": [{"args": [word, ...], "pipe": bool, "bg": bool, "env": bool}, ...], "ops": [op, ...]}
   pos   = {"pre": None|"py"|"cmd", "post": None|"py"|"cmd", "semi": "tight"|"spaced",
-           "wrap": None | ["block", kind, depth, unit, sibling] | ["oneline", kind], "cont": None | [boundary, ws]}
+           "wrap": None | ["block", kind, depth, unit, sibling] | ["oneline", kind], "cont": None | [boundary, ws],
+           "prelude": None | [kind, "top" | "inner"]}
+A prelude is a statement placed BEFORE the bare line that binds every identifier spelled on the line (command words
+included) in a scope that has ENDED when the line is reached (parameters of another function / lambda, names local to
+a function or class body, comprehension variables, an `except ... as` name after its handler, a deleted name): the
+names are NOT bound at the line, so the line must still mean its explicit twin.
 The explicit twin is rendered from the same token list: `![` is glued to the first token of every segment and `]`
 to its last one - the generator knows the segment boundaries, it never asks xonsh where they are."""
 
 import itertools
+import re
 
 BASE = "a"
 # the word alphabet of the statement (alternative 0 = BASE); two-token words are redirects with a target
@@ -18,7 +24,7 @@ SIMPLER_OP = {"||": "&&", "or": "&&", "and": "&&"}
 KINDS = ("if", "for", "while", "with", "try", "def")
 ONELINE_QUICK = ("if",)
 ONELINE_RICH = ("if", "for", "with", "def", "else", "try")
-POS0 = {"pre": None, "post": None, "semi": "tight", "wrap": None, "cont": None}
+POS0 = {"pre": None, "post": None, "semi": "tight", "wrap": None, "cont": None, "prelude": None}
 
 
 def seg0(nwords):
@@ -33,13 +39,18 @@ def blocks(thorough):
     complete.  segs=(min,max) segments, words = max words per segment (command word included), wsel = which
     per-segment word-count tuples ('all' | 'eq2' = two words everywhere | 'uniform3' = three words everywhere), kf = max word/segment-feature deviations from the
     all-`a` chain (kfmin..kf), kp = max position deviations (kpmin..kp), rich = the larger position catalogue,
-    exec = which agreeing pairs are also executed ('slice' | 'none' | 'all'); pairs with differing trees always are."""
-    d = dict(kfmin=0, kpmin=0, wsel="all", rich=False, exec="slice")
+    exec = which agreeing pairs are also executed ('slice' | 'none' | 'all'); pairs with differing trees always are;
+    prelude = the positions are those of the prelude family (prelude_positions) instead of the plain ones."""
+    d = dict(kfmin=0, kpmin=0, wsel="all", rich=False, exec="slice", prelude=False)
     if not thorough:
         spec = [
             dict(id="s2w3-kf1-kp1", segs=(1, 2), words=3, kf=1, kp=1),
             dict(id="s2w2-kf2-kp0", segs=(1, 2), words=2, kf=2, kfmin=2, kp=0, exec="none"),
             dict(id="s2w2-kf0-kp2", segs=(1, 2), words=2, kf=0, kp=2, kpmin=2, exec="none"),
+            # prelude family (names of the line bound in a scope that has ended): prelude x word deviation at top
+            # level, prelude x one other position deviation for plain words
+            dict(id="prelude-s2w2-kf1-kp0", segs=(1, 2), words=2, kf=1, kp=0, prelude=True),
+            dict(id="prelude-s2w2-kf0-kp1", segs=(1, 2), words=2, kf=0, kp=1, kpmin=1, prelude=True, exec="none"),
         ]
     else:
         spec = [
@@ -51,6 +62,10 @@ def blocks(thorough):
             dict(id="s2w3-kf0-kp2-rich", segs=(1, 2), words=3, kf=0, kp=2, kpmin=2, rich=True, exec="none"),
             dict(id="s2w2-kf1-kp2", segs=(1, 2), words=2, wsel="eq2", kf=1, kfmin=1, kp=2, kpmin=2, exec="none"),
             dict(id="s3w2-kf2-kp0", segs=(3, 3), words=2, wsel="eq2", kf=2, kfmin=2, kp=0, exec="none"),
+            dict(id="prelude-s2w3-kf1-kp0-rich", segs=(1, 2), words=3, kf=1, kp=0, rich=True, prelude=True),
+            dict(id="prelude-s3w2-kf0-kp0-rich", segs=(3, 3), words=2, kf=0, kp=0, rich=True, prelude=True, exec="none"),
+            dict(id="prelude-s2w2-kf0-kp1-rich", segs=(1, 2), words=2, kf=0, kp=1, kpmin=1, rich=True, prelude=True, exec="none"),
+            dict(id="prelude-s2w2-kf1-kp1", segs=(1, 2), words=2, wsel="eq2", kf=1, kfmin=1, kp=1, kpmin=1, prelude=True, exec="none"),
         ]
     return [dict(d, **b) for b in spec]
 
@@ -173,6 +188,84 @@ def render_line(chain, explicit, semi="tight", cont=None):
 HEAD = {"if": "if ok:", "for": "for i in xs:", "while": "while ok:", "with": "with ctxm:", "try": "try:", "def": "def fn():"}
 
 
+PRELUDES_QUICK = ("def-pos", "def-kwonly", "def-star", "async-def", "lambda", "local", "comp", "class", "except", "del")
+PRELUDES_RICH = PRELUDES_QUICK + (
+    "def-posonly", "def-default", "nested-def", "method", "genexp", "dictcomp", "local-for", "local-with", "local-import",
+    "local-def", "class-def", "lambda-star",
+)  # fmt: skip
+_KEEP_BOUND = frozenset(("ok", "ctxm", "ev", "xs", "and", "or", "not", "in", "is", "if", "else", "for", "while", "with", "try", "def", "pass", "del", "as", "None", "True", "False"))
+_IDENT = re.compile(r"[A-Za-z_][A-Za-z_0-9]*")
+
+
+def line_names(chain, pos):
+    """Every identifier spelled on the bare logical line (command words first), except the names the scaffolding
+    needs bound and keywords."""
+    L = render_line(chain, False)
+    if pos.get("pre") == "cmd" or pos.get("post") == "cmd":
+        L += " cz z"
+    out = []
+    for n in _IDENT.findall(L):
+        if n not in _KEEP_BOUND and n not in out:
+            out.append(n)
+    return out
+
+
+def prelude_lines(kind, names):
+    """Statements that bind `names` only in a scope that is closed afterwards."""
+    ns = ", ".join(names)
+    chain_assign = " = ".join(names) + " = 1"
+    if kind == "def-pos":
+        return [f"def zz({ns}): pass"]
+    if kind == "def-kwonly":
+        return [f"def zz(*, {ns}): pass"]
+    if kind == "def-posonly":
+        return [f"def zz({ns}, /): pass"]
+    if kind == "def-default":
+        return ["def zz(" + ", ".join(n + "=1" for n in names) + "): pass"]
+    if kind in ("def-star", "lambda-star"):
+        if len(names) == 1:
+            sig = "**" + names[0]
+        else:
+            sig = ", ".join(list(names[2:]) + ["*" + names[1], "**" + names[0]])
+        return [f"def zz({sig}): pass"] if kind == "def-star" else [f"zz = lambda {sig}: 1"]
+    if kind == "async-def":
+        return [f"async def zz({ns}): pass"]
+    if kind == "lambda":
+        return [f"zz = lambda {ns}: 1"]
+    if kind == "local":
+        return ["def zz():", "    " + chain_assign]
+    if kind == "local-for":
+        return ["def zz():"] + [f"    for {n} in xs: pass" for n in names]
+    if kind == "local-with":
+        return ["def zz():"] + [f"    with ctxm as {n}: pass" for n in names]
+    if kind == "local-import":
+        return ["def zz():"] + [f"    import os as {n}" for n in names]
+    if kind == "local-def":
+        return ["def zz():"] + [f"    def {n}(): pass" for n in names]
+    if kind == "nested-def":
+        return ["def zz():", f"    def yy({ns}): pass"]
+    if kind == "method":
+        return ["class Zz:", f"    def mm(self, {ns}): pass"]
+    if kind == "class":
+        return ["class Zz:", "    " + chain_assign]
+    if kind == "class-def":
+        return ["class Zz:"] + [f"    def {n}(self): pass" for n in names]
+    if kind == "comp":
+        return ["zz = [0 " + " ".join(f"for {n} in xs" for n in names) + "]"]
+    if kind == "genexp":
+        return ["zz = list(0 " + " ".join(f"for {n} in xs" for n in names) + ")"]
+    if kind == "dictcomp":
+        return ["zz = {0: 0 " + " ".join(f"for {n} in xs" for n in names) + "}"]
+    if kind == "except":
+        out = []
+        for n in names:
+            out += ["try:", "    raise ValueError", f"except ValueError as {n}:", "    pass"]
+        return out
+    if kind == "del":
+        return [chain_assign, "del " + ns]
+    raise ValueError(kind)
+
+
 def render(chain, pos, explicit):
     L = render_line(chain, explicit, pos["semi"], pos["cont"])
     cz = "![cz z]" if explicit else "cz z"
@@ -181,21 +274,31 @@ def render(chain, pos, explicit):
     if pos["post"]:
         L = L + "; " + ("n = 2" if pos["post"] == "py" else cz)
     w = pos["wrap"]
+    pl = pos.get("prelude")
+    top, inner = [], []
+    if pl:
+        lines = prelude_lines(pl[0], line_names(chain, pos))
+        if pl[1] == "inner" and w and w[0] == "block":
+            inner = lines
+        else:
+            top = lines
+    head = "".join(x + "\n" for x in top)
     if w is None:
-        return L + "\n"
+        return head + L + "\n"
     if w[0] == "oneline":
         k = w[1]
         if k == "else":
-            return "if not ok: pass\nelse: " + L + "\n"
+            return head + "if not ok: pass\nelse: " + L + "\n"
         if k == "try":
-            return "try: " + L + "\nfinally: pass\n"
+            return head + "try: " + L + "\nfinally: pass\n"
         if k == "def":
-            return "def fn(): " + L + "\nfn()\n"
-        return HEAD[k] + " " + L + "\n"
+            return head + "def fn(): " + L + "\nfn()\n"
+        return head + HEAD[k] + " " + L + "\n"
     _, kind, depth, unit, sib = w
     lines = [unit * d + "if ok:" for d in range(depth - 1)]
     ind, body = unit * (depth - 1), unit * depth
     lines.append(ind + HEAD[kind])
+    lines += [body + x.replace("    ", unit) for x in inner]
     if sib in ("before", "both"):
         lines.append(body + "n = 1")
     lines.append(body + L)
@@ -207,7 +310,7 @@ def render(chain, pos, explicit):
         lines += [ind + "finally:", body + "pass"]
     if kind == "def":
         lines.append(ind + "fn()")
-    return "\n".join(lines) + "\n"
+    return head + "\n".join(lines) + "\n"
 
 
 # ------------------------------------------------------------------------------------------- positions
@@ -260,12 +363,25 @@ def positions(chain, kp, rich, kpmin=0):
                 yield pos
 
 
+def prelude_positions(chain, kp, rich, kpmin=0):
+    """The prelude family: every prelude kind (placed at module level; in the rich catalogue also inside the enclosing
+    block) x every position with kpmin..kp OTHER deviations."""
+    kinds = PRELUDES_RICH if rich else PRELUDES_QUICK
+    for pos in positions(chain, kp, rich, kpmin):
+        places = ["top"] + (["inner"] if rich and pos["wrap"] and pos["wrap"][0] == "block" else [])
+        for place in places:
+            for kind in kinds:
+                yield dict(pos, prelude=[kind, place])
+
+
 def n_pos_devs(pos):
     return sum(1 for k, v in pos.items() if v != POS0[k])
 
 
 def pos_label(pos):
     parts = []
+    if pos.get("prelude"):
+        parts.append("prelude=" + pos["prelude"][0] + ("/inner" if pos["prelude"][1] == "inner" else ""))
     if pos["pre"]:
         parts.append("pre=" + pos["pre"])
     if pos["post"]:
@@ -334,9 +450,15 @@ def _with_cont(chain, pos):
 def reductions(chain, pos):
     """Candidate simplifications, in a fixed order (positions first, then segments, features, words, operators)."""
     # positions
-    for f in ("wrap", "cont", "pre", "post", "semi"):
-        if pos[f] != POS0[f]:
+    for f in ("prelude", "wrap", "cont", "pre", "post", "semi"):
+        if pos.get(f) != POS0[f]:
             yield chain, dict(pos, **{f: POS0[f]})
+    pl = pos.get("prelude")
+    if pl:
+        if pl[1] != "top":
+            yield chain, dict(pos, prelude=[pl[0], "top"])
+        if pl[0] != "def-pos":
+            yield chain, dict(pos, prelude=["def-pos", pl[1]])
     w = pos["wrap"]
     if w and w[0] == "block":
         if w[2] > 1:
